@@ -31,6 +31,8 @@ class Sched:
         self.trace = []
         self.switches = 0
         self.block_events = 0
+        self.timed_waits = 0
+        self.timeouts_expired = 0
         self.deadlock = False
         self.aborting = False
         self.stall_s = stall_s
@@ -151,15 +153,31 @@ class SchedLock:
     def _me():
         return threading.current_thread().sched_idx
 
-    def acquire(self, *_args, **_kw):
+    def acquire(self, blocking=True, timeout=-1):
+        """Same signature as threading / multiprocessing locks.  A finite timeout is modelled
+        adversarially: wall-clock time does not exist under an owned schedule, so a timed wait
+        on a held lock may expire whenever the waiter is scheduled while the lock is still
+        held ("whatever the interleaving" includes an arbitrarily slow holder)."""
         me = self._me()
         s = self.s
+        timed = (timeout is not None and timeout >= 0) or not blocking
         with s.cv:
             # acquiring is a scheduling point
             s.steps += 1
             s._pick()
             s.cv.notify_all()
             s._wait_turn(me)
+            if timed and self.owner is not None:
+                if blocking:
+                    # one more scheduling point: the holder may release first, or the timeout expires
+                    s.steps += 1
+                    s.timed_waits += 1
+                    s._pick()
+                    s.cv.notify_all()
+                    s._wait_turn(me)
+                if self.owner is not None:
+                    s.timeouts_expired += 1
+                    return False
             while self.owner is not None:
                 s.blocked[me] = self
                 s.block_events += 1
